@@ -68,7 +68,9 @@ fn render_opts(src: &mut Src, lib: &LefLibrary) -> RenderOpts {
     RenderOpts { vary: true, nonascii_comments: true, permute: true, end_library: if ge56 { src.bool() } else { true } }
 }
 fn c04_case(src: &mut Src, ctx: &mut Ctx) -> Result<(), String> {
+    crate::gen::lef::set_big_numbers(true);
     let lib = gen_lef(src, &LefGenOpts::default());
+    crate::gen::lef::set_big_numbers(false);
     classify(&lib, ctx);
     for k in 0..3 {
         let o = render_opts(src, &lib);
@@ -115,7 +117,9 @@ fn short(s: &str, n: usize) -> String {
 }
 /// negative variants: version-gated statements under the wrong version, missing END LIBRARY < 5.6
 fn c04_negative(src: &mut Src, ctx: &mut Ctx) -> Result<(), String> {
+    crate::gen::lef::set_big_numbers(true);
     let mut lib = gen_lef(src, &LefGenOpts { max_macros: 1, ..Default::default() });
+    crate::gen::lef::set_big_numbers(false);
     let kind = src.below(3);
     let plain = RenderOpts { vary: false, nonascii_comments: false, permute: false, end_library: true };
     let (txt, what) = match kind {
@@ -247,7 +251,9 @@ fn c05_roundtrip(lib: &LefLibrary, via_save: bool) -> Result<(), String> {
     }
 }
 fn c05_case(src: &mut Src, ctx: &mut Ctx) -> Result<(), String> {
+    crate::gen::lef::set_big_numbers(true);
     let lib = gen_lef(src, &LefGenOpts::default());
+    crate::gen::lef::set_big_numbers(false);
     let o = render_opts(src, &lib);
     let (txt, _) = render(&lib, src, o);
     // the domain is the image of the reader: whatever it returns for the rendered text
@@ -403,7 +409,9 @@ fn c05_lefrw(src: &mut Src, ctx: &mut Ctx) -> Result<(), String> {
             return Ok(());
         }
     };
+    crate::gen::lef::set_big_numbers(true);
     let lib = gen_lef(src, &LefGenOpts::default());
+    crate::gen::lef::set_big_numbers(false);
     let o = render_opts(src, &lib);
     let (txt, _) = render(&lib, src, o);
     let inp = scratch_path("lefrw.in.lef");
